@@ -221,6 +221,81 @@ func genAliasSetMixed(r *prng.R) *aliasSet {
 	return as
 }
 
+// genAliasSetGeneric: aliases must stay callable from the body of a generic function that is instantiated after they
+// were declared — also when the same generic function was instantiated before — and one declaration must not list the
+// same alias twice.
+func genAliasSetGeneric(r *prng.R) *aliasSet {
+	as := &aliasSet{Tree: &simdisk.Tree{Files: map[string][]byte{}}, Root: "haupt.ddp"}
+	as.Tree.Files["aus.ddp"] = []byte(ausModule)
+	pattern := prng.Pick(r, []string{"berechne etwas mit <x>", "verarbeite <x> gründlich", "nimm <x> und zeige es"})
+	fn := func(name, ptype, aliases string, public bool) string {
+		pub := ""
+		if public {
+			pub = "öffentliche "
+		}
+		return fmt.Sprintf("Die %sFunktion f_%s mit dem Parameter x vom Typ %s, gibt nichts zurück, macht:\n\tdrucke \"%s\".\nUnd kann so benutzt werden:\n\t%s\n\n", pub, name, ptype, name, aliases)
+	}
+	var root strings.Builder
+	root.WriteString("Binde \"aus\" ein.\n\n")
+	if r.Chance(0.25) {
+		// one declaration lists the same alias twice (or two aliases that differ in the parameter name only)
+		as.ExpectDup = true
+		second := pattern
+		if r.Bool() {
+			second = strings.Replace(pattern, "<x>", "<x>", 1)
+		}
+		other := "mache " + strings.Replace(pattern, "<x>", "<x>", 1)
+		list := []string{`"` + pattern + `"`, `"` + second + `"`}
+		if r.Bool() {
+			list = []string{`"` + pattern + `"`, `"` + other + `"`, `"` + second + `"`}
+		}
+		root.WriteString(fn("Doppelt", prng.Pick(r, []string{"Zahl", "Text"}), strings.Join(list, " oder\n\t"), false))
+		as.Tree.Files["haupt.ddp"] = []byte(root.String())
+		as.Desc = fmt.Sprintf("one declaration lists the alias %q twice (%d aliases)", pattern, len(list))
+		return as
+	}
+	types := []string{"Zahl", "Text", "Kommazahl", "Buchstabe"}
+	p := r.Perm(len(types))
+	ptypeA, ptypeB := types[p[0]], types[p[1]]
+	as.ExpectDup = r.Chance(0.3)
+	if as.ExpectDup {
+		ptypeB = ptypeA
+	}
+	gen := fmt.Sprintf("Die generische Funktion Zeige mit dem Parameter a vom Typ T, gibt nichts zurück, macht:\n\t%s.\nUnd kann so benutzt werden:\n\t\"Zeige <a>\"\n\n", strings.Replace(pattern, "<x>", "a", 1))
+	genImported := r.Chance(0.3)
+	if genImported {
+		as.Tree.Files["m_gen.ddp"] = []byte("Binde \"aus\" ein.\n\n" + strings.Replace(gen, "Die generische Funktion", "Die öffentliche generische Funktion", 1))
+		root.WriteString("Binde \"m_gen\" ein.\n\n")
+	} else {
+		root.WriteString(gen)
+	}
+	root.WriteString(fn("Erstes", ptypeA, `"`+pattern+`"`, false))
+	// first instantiation
+	fmt.Fprintf(&root, "Zeige %s.\n\n", defaultLit(ptypeA))
+	as.Calls++
+	// declarations in between
+	for k, n := 0, r.Intn(3); k < n; k++ {
+		fmt.Fprintf(&root, "Die Zahl zwischen_%d ist %d.\n", k, k)
+	}
+	secondImported := r.Chance(0.3)
+	if secondImported {
+		as.Tree.Files["m_zweites.ddp"] = []byte("Binde \"aus\" ein.\n\n" + fn("Zweites", ptypeB, `"`+pattern+`"`, true))
+		root.WriteString("Binde \"m_zweites\" ein.\n\n")
+	} else {
+		root.WriteString(fn("Zweites", ptypeB, `"`+pattern+`"`, false))
+	}
+	if !as.ExpectDup {
+		// callable directly and from a new instantiation of the generic function
+		fmt.Fprintf(&root, "%s.\n", strings.Replace(pattern, "<x>", defaultLit(ptypeB), 1))
+		fmt.Fprintf(&root, "Zeige %s.\n", defaultLit(ptypeB))
+		fmt.Fprintf(&root, "Zeige %s.\n", defaultLit(ptypeA))
+		as.Calls += 3
+	}
+	as.Tree.Files["haupt.ddp"] = []byte(root.String())
+	as.Desc = fmt.Sprintf("generic caller: pattern %q, first %s, second %s (imported=%t), generic imported=%t, duplicate=%t", pattern, ptypeA, ptypeB, secondImported, genImported, as.ExpectDup)
+	return as
+}
+
 func defaultLit(t string) string {
 	switch t {
 	case "Text":
@@ -347,6 +422,9 @@ func checkC20(tier string) int {
 		as := genAliasSet(r)
 		if n%3 == 2 {
 			as = genAliasSetMixed(r)
+		}
+		if n%6 == 4 {
+			as = genAliasSetGeneric(r)
 		}
 		j := fwproto.Job{ID: n, Tree: as.Tree, Root: as.Root, Source: true}
 		j.Steps = []fwproto.Step{{Fresh: true}}
